@@ -73,6 +73,7 @@ impl Report {
                 }
             }
         }
+        let _ = std::fs::remove_dir_all(format!("{}/replays/{}", crate::verif_dir(), id));
         Report {
             id: id.to_string(),
             tier: tier.to_string(),
